@@ -526,7 +526,7 @@ namespace detail {
         {
             if (val.is_int64())
             {
-                return Json(-val.template as<int64_t>(), semantic_tag::none);
+                return Json(static_cast<int64_t>(uint64_t(0) - static_cast<uint64_t>(val.template as<int64_t>())), semantic_tag::none); // wraps for the minimum, never overflows
             }
             if (val.is_double())
             {
@@ -892,7 +892,7 @@ namespace detail {
             }
             if (lhs.is_int64() && rhs.is_int64())
             {
-                return Json(((lhs.template as<int64_t>() + rhs.template as<int64_t>())), semantic_tag::none);
+                return Json(static_cast<int64_t>(static_cast<uint64_t>(lhs.template as<int64_t>()) + static_cast<uint64_t>(rhs.template as<int64_t>())), semantic_tag::none); // wraps, never overflows
             }
             if (lhs.is_uint64() && rhs.is_uint64())
             {
@@ -933,7 +933,7 @@ namespace detail {
             }
             if (lhs.is_int64() && rhs.is_int64())
             {
-                return Json(((lhs.template as<int64_t>() - rhs.template as<int64_t>())), semantic_tag::none);
+                return Json(static_cast<int64_t>(static_cast<uint64_t>(lhs.template as<int64_t>()) - static_cast<uint64_t>(rhs.template as<int64_t>())), semantic_tag::none); // wraps, never overflows
             }
             if (lhs.is_uint64() && rhs.is_uint64())
             {
@@ -974,7 +974,7 @@ namespace detail {
             }
             if (lhs.is_int64() && rhs.is_int64())
             {
-                return Json(((lhs.template as<int64_t>() * rhs.template as<int64_t>())), semantic_tag::none);
+                return Json(static_cast<int64_t>(static_cast<uint64_t>(lhs.template as<int64_t>()) * static_cast<uint64_t>(rhs.template as<int64_t>())), semantic_tag::none); // wraps, never overflows
             }
             if (lhs.is_uint64() && rhs.is_uint64())
             {
@@ -1015,11 +1015,11 @@ namespace detail {
             {
                 return Json::null();
             }
-            if (lhs.is_int64() && rhs.is_int64())
+            if (lhs.is_int64() && rhs.is_int64() && rhs.template as<int64_t>() != 0 && rhs.template as<int64_t>() != -1) // by zero, and minimum by -1, go the floating-point way
             {
                 return Json(((lhs.template as<int64_t>() / rhs.template as<int64_t>())), semantic_tag::none);
             }
-            if (lhs.is_uint64() && rhs.is_uint64())
+            if (lhs.is_uint64() && rhs.is_uint64() && rhs.template as<uint64_t>() != 0)
             {
                 return Json((lhs.template as<uint64_t>() / rhs.template as<uint64_t>()), semantic_tag::none);
             }
@@ -1058,11 +1058,11 @@ namespace detail {
             {
                 return Json::null();
             }
-            if (lhs.is_int64() && rhs.is_int64())
+            if (lhs.is_int64() && rhs.is_int64() && rhs.template as<int64_t>() != 0 && rhs.template as<int64_t>() != -1) // by zero, and minimum by -1, go the floating-point way
             {
                 return Json(((lhs.template as<int64_t>() % rhs.template as<int64_t>())), semantic_tag::none);
             }
-            if (lhs.is_uint64() && rhs.is_uint64())
+            if (lhs.is_uint64() && rhs.is_uint64() && rhs.template as<uint64_t>() != 0)
             {
                 return Json((lhs.template as<uint64_t>() % rhs.template as<uint64_t>()), semantic_tag::none);
             }
